@@ -22,6 +22,7 @@ type Storer struct {
 	ProfileKeys     []string       // the application's declared profile fields
 	ZoneLess        bool           // timestamp columns keep no zone: wall-clock fields in, UTC out
 	FoldPIDs        bool           // Load finds an account under any spelling that lower-cases to its identifier
+	TypedNilOnMiss  bool           // Load answers a miss with a nil *User inside a non-nil interface next to ErrUserNotFound
 	SeparateEmail   bool           // the user type keeps its e-mail address apart from the primary identifier (a username site): PutPID does not fill it
 	PersistAll      bool           // PutArbitrary stores everything it is handed
 	TimeLoc         *time.Location // Location of the timestamps handed out by Load* (nil: as stored)
@@ -265,6 +266,12 @@ func (s *Storer) Load(ctx context.Context, key string) (authboss.User, error) {
 	}
 	if !ok {
 		s.noteResult("notfound")
+		if s.TypedNilOnMiss {
+			// the classic Go storer: `var u *User; err := db.Get(u, ...); return u, err` — the interface it
+			// hands back on a miss is not nil (it holds a nil *User), the error says what happened
+			var none *User
+			return none, authboss.ErrUserNotFound
+		}
 		return nil, authboss.ErrUserNotFound
 	}
 	return s.wrap(s.prep(u.Clone())), nil
